@@ -365,6 +365,9 @@ type Fail struct {
 	Site, Class, Witness, Desc string
 }
 
+// FailBox: the bytes of the box named by the site of the last failing input (as found in the normalised input)
+var FailBox = map[string][]byte{}
+
 // Perm returns a random permutation of 0..n-1.
 func Perm(r *hx.Rng, n int) []int {
 	p := make([]int, n)
@@ -530,6 +533,11 @@ func Lossless(in []byte, used int, b mp4.Box, decode func([]byte) (mp4.Box, int,
 				}
 				class = "mutant-not-reproduced:" + how
 			}
+			var boxBytes []byte
+			if inNode != nil && inNode.Type == site && inNode.Off+inNode.Size <= len(cmpIn) {
+				boxBytes = cmpIn[inNode.Off : inNode.Off+inNode.Size]
+			}
+			FailBox[site+"/"+class] = boxBytes
 			*fails = append(*fails, Fail{site, class, w,
 				fmt.Sprintf("%s: input %d bytes, re-encoded %d bytes, first difference at offset %d", pathName, len(cmpIn), len(out), pos)})
 			return
